@@ -16,4 +16,16 @@ TEXT = {
    level='Deductive proof (Verus/Z3) for all versions, indices and column contents: every field of the transposed row equals values()[i] of the column of the same name; optional fields are Some iff the column is present; nested records compose.',
    note='Assumed: shim contract of MutablePrimitiveArray::values (dense buffer, view-consistent); currently covers the in-progress (mutable) representation of the 11 codec structs; immutable representation and Frame-level item slicing are added by later units.',
    design_ref='DESIGN.md §5 C13'),
+ 'C09': dict(
+   engine='kani+verus',
+   technique='Kani loop-free harness over all 2^24 versions on the real assert_max_version (complete), plus Verus contracts on both writers (guard called first, Err propagated)',
+   level='Complete proof by Kani/CBMC on the real compiled crate: assert_max_version(v) is Ok exactly when (major, minor, patch) <= (3, 16, 0) lexicographically, for all 2^24 versions.',
+   note='Trusted: Kani 0.68/CBMC; alloc::fmt::format stubbed (error text irrelevant). The derived Ord on Version is part of what is checked (real code).',
+   design_ref='DESIGN.md §5 C09'),
+ 'C20': dict(
+   engine='verus+kani',
+   technique='Verus contract on extracted Version::gte/lt against the arithmetic lexicographic order; Kani complete harnesses (all u8^5) on the real crate incl. monotonicity',
+   level='Proof for all versions and thresholds: gte == lexicographic >= on (major, minor), lt == its negation (Verus on extracted code, Kani on compiled code), and every gate is monotone in the version (Kani, all pairs).',
+   note='Display/FromStr round-trip and rejection of malformed strings go through core::fmt / str::split / str::parse: outside Verus, and only bounded in CBMC (see evidence bounded_checks; never counted as proved).',
+   design_ref='DESIGN.md §5 C20'),
 }
